@@ -21,10 +21,10 @@ func (vApp) RemoteSKIDisconnected(ski string) {}
 func (vApp) SetupRemoteDevice(ski string, w api.ShipConnectionDataWriterInterface) api.ShipConnectionDataReaderInterface {
 	return nil
 }
-func (vApp) VisibleRemoteServicesUpdated(entries []api.RemoteService)                    {}
-func (vApp) ServiceShipIDUpdate(ski string, shipdID string)                              {}
-func (vApp) ServicePairingDetailUpdate(ski string, detail *api.ConnectionStateDetail)    {}
-func (vApp) AllowWaitingForTrust(ski string) bool                                        { return false }
+func (vApp) VisibleRemoteServicesUpdated(entries []api.RemoteService)                 {}
+func (vApp) ServiceShipIDUpdate(ski string, shipdID string)                           {}
+func (vApp) ServicePairingDetailUpdate(ski string, detail *api.ConnectionStateDetail) {}
+func (vApp) AllowWaitingForTrust(ski string) bool                                     { return false }
 
 // vNoDial replaces Hub.connectFoundService in the engine: the dial "succeeds" without creating a connection
 // (a failing dial makes the hub re-announce and retry forever, by design)
